@@ -15,6 +15,10 @@ inductive F where
   | tern (c a b : F)
   | lor (a b : F)
   | land (a b : F)
+  | flt (x : Float)
+  | str (s : String)
+  | nul
+  | pos (a : F)
   | var (n : String) (b e : Int)       -- a variable reference; (b, e) = its extent in the source (operand of mark.detail)
   | asg (n : String) (a : F)           -- `n = a`, itself an expression whose value is the value assigned
   deriving Inhabited
@@ -28,6 +32,16 @@ def isPlain : Val → Bool
 /-- definitional semantics: left-to-right, strict except `?:` and `||`; `&&` evaluates both operands (the language's rule) -/
 def evalF (z : Bool) (env : Nat) : Heap → F → Heap × Res Val
   | h, .lit i => (h, .ok (.int i))
+  | h, .flt x => (h, .ok (.float x))
+  | h, .str s => (h, .ok (.str s))
+  | h, .nul => (h, .ok .null)
+  | h, .pos a =>
+    (match evalF z env h a with
+     | (h1, .ok v) =>
+       (match opPos v with
+        | some r => (h1, .ok r)
+        | none => (h1, .err ("此类型无法使用一元算符 " ++ "pos" ++ ": " ++ typeName v)))
+     | r => r)
   | h, .bin op a b =>
     (match evalF z env h a with
      | (h1, .ok va) =>
@@ -70,6 +84,10 @@ def evalF (z : Bool) (env : Nat) : Heap → F → Heap × Res Val
 
 def compile : F → List Instr
   | .lit i => [.pushInt i]
+  | .flt x => [.pushFlt x]
+  | .str s => [.pushStr s]
+  | .nul => [.pushNull]
+  | .pos a => compile a ++ [.pos]
   | .bin op a b => compile a ++ compile b ++ [.bin op]
   | .neg a => compile a ++ [.neg]
   | .tern c a b =>
@@ -82,6 +100,10 @@ def compile : F → List Instr
 /-- operand-stack slots the code of `e` needs above the current top -/
 def depth : F → Nat
   | .lit _ => 1
+  | .flt _ => 1
+  | .str _ => 1
+  | .nul => 1
+  | .pos a => depth a
   | .bin _ a b => max (depth a) (depth b + 1)
   | .neg a => depth a
   | .tern c a b => max (depth c) (max (depth a) (depth b))
